@@ -37,7 +37,7 @@ def run(ck):
     thorough = ck.tier == "thorough"
     ck.assumptions += ["ASan/UBSan observe the real code during every replayed/recorded history",
                        "hash seeds: the seeded default hash is exercised with the seed of each harness process (several per run)",
-                       "no allocation failures are injected here (C08 does that)"]
+                       "F stage: every allocation request of the last call of a history is failed in turn (interposed allocator); the call must then report failure with the map as it was, or succeed as usual"]
     ck.mc("MCLinkHash", "C06_mc.cfg", workers=8, xmx="8g", timeout=1800)
     for m in MUTS:
         ck.mc_must_fail("MCLinkHash", "C06_asfound_%s.cfg" % m, workers=4, timeout=600)
@@ -57,6 +57,16 @@ def run(ck):
         tp = os.path.join(ck.dir, "g%d.ndjson" % lvl)
         deaths = vlib.run_executions(exe, lambda st: ["c06", "replay", sp, st, lvl], len(scripts), tp)
         vlib.conformance(ck, name, "TraceOrderedMap", "trace.cfg", tp, deaths, diag_of, min_events=len(scripts))
+    # ---- F: the histories that end in an insertion, with every allocation request of that call failed in turn
+    fscripts = [script_of(h) for i, h in enumerate(hists) if h[-1]["op"] in ("add", "addnew") and (thorough or i % 4 == vlib.SEED % 4)]
+    ck.extra["f_scripts"] = len(fscripts)
+    fp = os.path.join(ck.dir, "f.scripts")
+    with open(fp, "w") as f:
+        f.write("\n".join(fscripts) + "\n")
+    for lvl, name in ((0, "F:histories-with-failing-allocations(lh_table)"), (1, "F:histories-with-failing-allocations(json_object)")):
+        tp = os.path.join(ck.dir, "f%d.ndjson" % lvl)
+        deaths = vlib.run_executions(exe, lambda st: ["c06", "replay", fp, st, lvl, 1], len(fscripts), tp)
+        vlib.conformance(ck, name, "TraceOrderedMap", "trace.cfg", tp, deaths, diag_of, min_events=100)
     # ---- V: churn; several processes = several hash seeds
     n = 800 if thorough else 48
     nops = 1500 if thorough else 600
